@@ -80,6 +80,10 @@ VARIANTS = {
     'body-letter-case': ({'body': '<P Title="T">x ${v}</P>'}, {'body': '<p title="T">x ${v}</p>'}),
     'body-trailing-newline': ({'body': '<p>x ${v}</p>\n'}, {'body': '<p>x ${v}</p>'}),
     'extra_builtins': ({'body': '<p>${zz|0}</p>'}, {'body': '<p>${zz|0}</p>', 'cfg': {'extra_builtins': {'zz': 1}}}),
+    'extra_builtins-names-concatenate': ({'body': '<p>${ab|"-"};${c|"-"};${a|"-"};${bc|"-"}</p>', 'cfg': {'extra_builtins': {'ab': 'AB', 'c': 'C'}}},
+                                         {'body': '<p>${ab|"-"};${c|"-"};${a|"-"};${bc|"-"}</p>', 'cfg': {'extra_builtins': {'a': 'A', 'bc': 'BC'}}}),
+    'extra_builtins-same-names-other-values': ({'body': '<p>${zz|0}</p>', 'cfg': {'extra_builtins': {'zz': 1}}},
+                                               {'body': '<p>${zz|0}</p>', 'cfg': {'extra_builtins': {'zz': 2}}}),
     'boolean_attributes-unset-vs-empty': ({}, {'cfg': {'boolean_attributes': []}}),
     'boolean_attributes-empty-vs-set': ({'cfg': {'boolean_attributes': []}}, {'cfg': {'boolean_attributes': ['checked']}}),
     'default_expression-two': ({'cfg': {'default_expression': 'string'}}, {'cfg': {'default_expression': 'structure'}}),
@@ -247,11 +251,66 @@ def layer_crash(ctx, tmp):
         shutil.rmtree(d0, ignore_errors=True)
 
 
-def layer_strace(ctx, tmp):
-    """SIGKILL at the N-th syscall touching the cache directory."""
+def other_filesystem(tmp):
+    """A writable directory on another file system than the temporary directory, or None."""
+    for cand in ('/dev/shm', '/run/shm', os.path.expanduser('~'), '/var/tmp'):
+        try:
+            if os.path.isdir(cand) and os.access(cand, os.W_OK) and os.stat(cand).st_dev != os.stat(tmp).st_dev:
+                return cand
+        except OSError:
+            continue
+    return None
+
+
+def layer_crash_other_filesystem(ctx, tmp):
+    """The cache directory on another file system than the process's temporary directory (a mounted volume, a
+    tmpfs): an entry must still be published atomically - crash at every file-system step of the store."""
+    base = other_filesystem(tmp)
+    if base is None:
+        ctx.note('no second writable file system in this sandbox: cross-file-system crash points skipped')
+        ctx.cover('other-filesystem', 'unavailable')
+        return
+    ctx.cover('other-filesystem', base)
+    root = tempfile.mkdtemp(prefix='verif_c15_', dir=base)
+    try:
+        item = 0
+        for tname in ('small', 'large'):
+            jobs = [job({'body': CRASH_TEMPLATES[tname]})]
+            d0 = tempfile.mkdtemp(prefix='cache_ref_', dir=root)
+            full = run_child(jobs, d0, {'C15_COUNT_LINES': '1'})
+            ref = run_child(jobs)['results']
+            if not full['results'] or full['results'] != ref:
+                ctx.violation('cache-changes-output', 'cache on %s: with cache %r without %r' % (base, full['results'], ref), {'kind': 'ref', 't': tname})
+                continue
+            ref_files = py_files(d0)
+            n_audit = full['steps']['audit']
+            for k in range(1, n_audit + 1):
+                item += 1
+                if item % ctx.nshards != ctx.shard:
+                    continue
+                d = tempfile.mkdtemp(prefix='cache_', dir=root)
+                r = run_child(jobs, d, {'C15_CRASH_AUDIT': str(k)})
+                died = r['rc'] == 97
+                if died:
+                    ctx.mon('child-died-at-step')
+                    ctx.mon('other-filesystem-crashes')
+                ctx.case(key=('crash-xfs', k, tname), nontrivial=died)
+                after_crash_check(ctx, d, jobs, ref, ref_files, 'audit-other-filesystem:%s step %d of %d (cache on %s)' % (tname, k, n_audit, base))
+                shutil.rmtree(d, ignore_errors=True)
+            shutil.rmtree(d0, ignore_errors=True)
+    finally:
+        shutil.rmtree(root, ignore_errors=True)
+
+
+def layer_strace(ctx, tmp, cache_root=None):
+    """SIGKILL at the N-th syscall touching the cache directory (cache_root: where the cache directories are
+    made - by default next to everything else, else a directory on another file system)."""
     if not shutil.which('strace'):
         ctx.note('strace not available: syscall-level crash points skipped')
         return
+    tag = '' if cache_root is None else '-other-filesystem'
+    logdir = tmp
+    tmp = cache_root or tmp
     tname = 'large'
     jobs = [job({'body': CRASH_TEMPLATES[tname]})]
     ref = run_child(jobs)['results']
@@ -269,8 +328,8 @@ def layer_strace(ctx, tmp):
     def paths(d):
         return ['-P', os.path.join(d, base + 'fixed0001.tmp'), '-P', os.path.join(d, entry)]
     d = tempfile.mkdtemp(prefix='cache_', dir=tmp)
-    logf = os.path.join(tmp, 'strace_count_%d.log' % ctx.shard)
-    calls = 'openat,write,rename,renameat,renameat2,close,unlink,fsync'
+    logf = os.path.join(logdir, 'strace_count%s_%d.log' % (tag, ctx.shard))
+    calls = 'openat,write,rename,renameat,renameat2,close,unlink,fsync,sendfile,copy_file_range,ftruncate'
     pin = {'C15_TMPNAMES': '1'}
     r = run_child(jobs, d, pin, strace=['strace', '-f', '-qq', '-o', logf] + paths(d) + ['-e', 'trace=' + calls], timeout=300)
     try:
@@ -283,7 +342,7 @@ def layer_strace(ctx, tmp):
     if r['results'] != ref or total == 0:
         ctx.note('strace counting run failed (rc %s, %d syscalls): %s' % (r['rc'], total, r['stderr'][-200:]))
         return
-    ctx.cover('strace-syscalls-on-entry-paths', total)
+    ctx.cover('strace-syscalls-on-entry-paths' + tag, total)
     if ctx.shard == 0:
         ctx.note('syscalls on the entry paths: ' + ' | '.join(l.split('(')[0].split()[-1] for l in lines))
     # strace counts "when=" per syscall name: address the k-th syscall of the run as (name, occurrence)
@@ -296,6 +355,8 @@ def layer_strace(ctx, tmp):
     ks = list(range(1, total + 1))
     if ctx.quick and total > 32:
         ks = ks[::max(1, total // 32)]
+    if tag and ctx.quick:
+        ks = ks[:16]
     for i, k in enumerate(ks):
         if i % ctx.nshards != ctx.shard:
             continue
@@ -308,9 +369,9 @@ def layer_strace(ctx, tmp):
         if died:
             ctx.mon('child-died-at-step')
             ctx.mon('sigkill-crashes')
-        ctx.case(key=('crash', 'strace', k, tname), nontrivial=died,
+        ctx.case(key=('crash', 'strace' + tag, k, tname), nontrivial=died,
                  sample={'injector': 'strace SIGKILL', 'syscall_index': k, 'of': total, 'left_behind': listing(d)} if k == 2 else None)
-        after_crash_check(ctx, d, jobs, ref, ref_files, 'sigkill-at-syscall:%s syscall %d of %d (%s #%d)' % (tname, k, total, name, occ))
+        after_crash_check(ctx, d, jobs, ref, ref_files, 'sigkill-at-syscall%s:%s syscall %d of %d (%s #%d)' % (tag, tname, k, total, name, occ))
         shutil.rmtree(d, ignore_errors=True)
 
 
@@ -372,8 +433,16 @@ def run(ctx):
     try:
         layer_soundness(ctx, tmp)
         layer_crash(ctx, tmp)
+        layer_crash_other_filesystem(ctx, tmp)
         layer_two_writers(ctx, tmp)
         layer_strace(ctx, tmp)
+        base = other_filesystem(tmp)
+        if base is not None:
+            xroot = tempfile.mkdtemp(prefix='verif_c15s_', dir=base)
+            try:
+                layer_strace(ctx, tmp, cache_root=xroot)
+            finally:
+                shutil.rmtree(xroot, ignore_errors=True)
     finally:
         shutil.rmtree(tmp, ignore_errors=True)
 
